@@ -17,6 +17,7 @@ func init() {
 		Quick:      all("./proto", "./internal/impl", "./internal/order", "./encoding/protojson", "./encoding/prototext"),
 		Thorough:   []ConfigLoad{{"default", []string{"./..."}}, {"reflect", []string{"./proto"}}},
 		Run: func(c *Ctx) {
+			c.ruleNestedMerge("R-NESTED-MERGE")
 			if c.P.Config == "reflect" {
 				c.ruleFastPathGateReflect("R-FASTPATH-GATE")
 				return
